@@ -158,10 +158,17 @@ def handle (inp out : String) : String :=
     match algo.toNat? with
     | some a =>
       let ms := runBs a (if prev == "-" then none else ofHex prev) (if iv == "-" then none else ofHex iv) (ops.splitOn ";")
-      let spec := match ow with
-        | _ :: rl :: ri :: _ :: leaves => if rl == "-" then none else leafOracle a rl ri leaves
+      -- what follows " SIG" is about the leaves' signatures (judged below); the rest is compared with the model
+      let parts := out.splitOn " SIG"
+      let out0 := parts.headD ""
+      let sigs := words (parts.getD 1 "")
+      let ow0 := words out0
+      let sigSpec : Option String := (sigs.find? (· != "G0:0:1")).map fun w =>
+        s!"a-leaf's-signature-{w}-(status:internal-verification-for-the-leaf's-hash-and-level:ends-in-the-value-the-aggregator-signed)"
+      let spec := match ow0 with
+        | _ :: rl :: ri :: _ :: leaves => if rl == "-" then none else (leafOracle a rl ri leaves).orElse fun _ => sigSpec
         | _ => some "short-impl-output"
-      verdict s!"bs:{if (ms.splitOn " ")[1]! == "-" then "open" else "closed"}" ms out spec
+      verdict s!"bs:{if (ms.splitOn " ")[1]! == "-" then "open" else if sigs.isEmpty then "closed" else "closed+signed"}" ms out0 spec
     | none => "skip bad-bs"
   | _ => "skip unknown-op"
 
